@@ -298,3 +298,75 @@ def addterm_private_copy(prog):
                   nm in target_names(n.ast.targets[0]) and n not in copies]
         ok = ok and bool(copies) and not others and ga.must_pass(ga.entry, u, copies)
     return at, ok
+
+
+def accessors_not_memoised(prog, names=('GetSectors', 'LookupSector', 'GetVariableName', 'GetVariables', 'GetModel', 'ShareParent',
+                                        'IsSharedCurrencyZone', 'GetCrossRate', 'GetSectorCodeWithCountry')):
+    """The effect traces read these accessors as functions of the *current* object graph (the sectors of a zone are the
+    sectors it has now).  A definition that fills a data member and can hand back what an earlier call left there - with no
+    other function of the package ever re-setting that member - answers for an older graph.
+    -> [(funcinfo, member, ok, why)]  one entry per (accessor, member it both stores and reads)"""
+    out = []
+    # members (re)set anywhere outside constructors, per attribute name
+    setters = {}
+    for f in prog.all_functions():
+        if '/deprecated/' in f.module.rel:
+            continue
+        for n in ast.walk(f.node):
+            tgts = n.targets if isinstance(n, ast.Assign) else ([n.target] if isinstance(n, (ast.AugAssign, ast.AnnAssign)) else (
+                n.targets if isinstance(n, ast.Delete) else []))
+            for t in tgts:
+                base = t
+                while isinstance(base, ast.Subscript):
+                    base = base.value
+                if isinstance(base, ast.Attribute):
+                    setters.setdefault(base.attr, set()).add(f.key)
+            if isinstance(n, ast.Call) and isinstance(n.func, ast.Attribute) and n.func.attr in ('clear', 'pop', 'update', 'append', 'extend') and \
+                    isinstance(n.func.value, ast.Attribute):
+                setters.setdefault(n.func.value.attr, set()).add(f.key)
+    for f_raw in prog.all_functions():
+        if f_raw.name not in names or f_raw.cls is None or not prog.is_core(f_raw.module.rel):
+            continue
+        f = flatten(prog, f_raw)
+        stored = {}
+        for n in ast.walk(f.node):
+            if isinstance(n, ast.Assign):
+                for t in n.targets:
+                    base = t
+                    while isinstance(base, ast.Subscript):
+                        base = base.value
+                    if isinstance(base, ast.Attribute) and isinstance(base.value, ast.Name) and base.value.id == 'self':
+                        stored.setdefault(base.attr, []).append(n)
+        if not stored:
+            out.append((f_raw, None, True, 'keeps nothing between calls'))
+            continue
+        g = cfgmod.build(f)
+        for attr, stores in sorted(stored.items()):
+            reads = [n for n in ast.walk(f.node) if isinstance(n, ast.Attribute) and n.attr == attr and isinstance(n.ctx, ast.Load) and
+                     isinstance(n.value, ast.Name) and n.value.id == 'self']
+            if not reads:
+                continue
+            # a path from the entry to a return that uses the member without having stored it in this call
+            snodes = [g.node_of(s) for s in stores]
+            snodes = [x for x in snodes if x is not None]
+            stale_ret = None
+            for rn in g.stmt_nodes(lambda nd: isinstance(nd.ast, ast.Return) and nd.ast.value is not None):
+                names_used = {x.attr for x in ast.walk(rn.ast.value) if isinstance(x, ast.Attribute)} | \
+                             {x.id for x in ast.walk(rn.ast.value) if isinstance(x, ast.Name)}
+                local_from_member = {t.id for n in ast.walk(f.node) if isinstance(n, ast.Assign) and len(n.targets) == 1 and
+                                     isinstance(n.targets[0], ast.Name) and any(r_ in list(ast.walk(n.value)) for r_ in reads)
+                                     for t in [n.targets[0]]}
+                if attr in names_used or (names_used & local_from_member):
+                    if not g.must_pass(g.entry, rn, snodes):
+                        stale_ret = rn
+            others = {k for k in setters.get(attr, set()) if k != f_raw.key and not k.endswith('.__init__')}
+            ok = stale_ret is None or bool(others)
+            why = ('self.%s is rebuilt in every call that returns it' % attr if stale_ret is None else
+                   'self.%s can be returned as an earlier call left it; it is also re-set by %s (coherence of that re-setting is not decided here)'
+                   % (attr, sorted(others)[:2])) if ok else \
+                ('self.%s is filled here and can be handed back as an earlier call left it (line %d); nothing else in the package ever re-sets it: '
+                 'objects created after the first call are never seen' % (attr, stale_ret.line))
+            out.append((f_raw, attr, ok, why))
+    if not out:
+        raise AnalysisError('no discovery accessor found')
+    return out
